@@ -73,6 +73,18 @@ class EqRaises:
     __hash__ = object.__hash__
 
 
+class EqArray:
+    """array-like ==: the result of a comparison is not a plain bool, its truth value is ambiguous"""
+
+    class _Ambiguous:
+        def __bool__(self):
+            raise ValueError('The truth value of an array with more than one element is ambiguous')
+
+    def __eq__(self, other):
+        return EqArray._Ambiguous()
+    __hash__ = object.__hash__
+
+
 class MyList(list):
     pass
 
@@ -188,6 +200,11 @@ ATOMS = {
     # ints around the int->str conversion limit (4300 digits): str() of the longer ones raises ValueError
     'int4300': lambda: 10 ** 4299, 'int4301': lambda: 10 ** 4300, 'int5000': lambda: -(10 ** 5000),
     'list_of_int5000': lambda: [10 ** 5000, 1], 'dict_of_int4301': lambda: {'n': 10 ** 4300},
+    # dict views: iterating them creates new (key, value) tuples each time
+    'dict_items': lambda: {'k%d' % i: i * 1000 for i in range(12)}.items(),
+    'dict_keys': lambda: {'a': 1, 'b': 2}.keys(), 'dict_values': lambda: {'a': [1], 'b': [2]}.values(),
+    'reversed': lambda: reversed((1, 2, 3)), 'zip': lambda: zip('ab', 'cd'), 'enumerate': lambda: enumerate(['x', 'y']),
+    'eq_array': lambda: EqArray(), 'eq_raises_val': EqRaises,
 }
 
 
@@ -452,8 +469,76 @@ class Shim:
         return self.trace_call if r is not None else None
 
 
+def _textual(x):
+    """names are text or absent; anything else is shown as such (and then never equals an expected name)"""
+    if x is None or isinstance(x, str):
+        return x
+    t = safe_text(x)
+    return '<not text: %s %s>' % (type(x).__name__, t if t is not None else '?')
+
+
 def dump_ref(v):
-    return [v.vid, v.name, list(v.modifiers or []), v.original_name]
+    return [v.vid if v.vid is None or isinstance(v.vid, str) else _textual(v.vid), _textual(v.name),
+            [_textual(m) for m in (v.modifiers or [])], _textual(v.original_name)]
+
+
+def wire_of(s):
+    """hand the snapshot to the REAL deep.push.convert_snapshot (as PushService._push_task does) and list the ids of the
+    message: None = nothing would be sent.  The action configs of these checks hold ints (limits can only be set on
+    directly constructed actions), which the tracepoint echo of the message cannot carry: the echo's args are given as
+    text first — the echo is not what is judged here."""
+    from deep.push import convert_snapshot
+    from deep.api.tracepoint.tracepoint_config import TracePointConfig
+    tp = s.tracepoint
+    try:
+        s._tracepoint = TracePointConfig(tp.id, tp.path, tp.line_no, {str(k): str(v) for k, v in tp.args.items()},
+                                         [str(w) for w in tp.watches], [])
+        m = convert_snapshot(s)
+    except BaseException as e:       # noqa: B902 — convert_snapshot promises not to raise
+        return {'raised': f'{type(e).__name__}: {e}'}
+    finally:
+        s._tracepoint = tp
+    if m is None:
+        return None
+    refs = [['frame %d' % i, v.ID, v.name] for i, f in enumerate(m.frames) for v in f.variables]
+    refs += [['variable %s' % k, c.ID, c.name] for k, var in m.var_lookup.items() for c in var.children]
+    refs += [['watch %s' % w.expression, w.good_result.ID, w.good_result.name] for w in m.watches
+             if w.WhichOneof('result') == 'good_result']
+    return {'vars': sorted(m.var_lookup.keys()), 'refs': refs}
+
+
+def has_surrogate(x):
+    """does the case mention a lone surrogate anywhere (values, keys, names)? (the open finding C08/lone-surrogate-dropped)"""
+    if isinstance(x, str):
+        return any(0xD800 <= ord(c) <= 0xDFFF for c in x)
+    if isinstance(x, dict):
+        return any(has_surrogate(k) or has_surrogate(v) for k, v in x.items())
+    if isinstance(x, (list, tuple)):
+        return any(has_surrogate(v) for v in x)
+    return False
+
+
+def judge_wire(case, obs, closure=True, delivery=True):
+    """every snapshot handed to the push service converts to a message, and the message is closed"""
+    v = []
+    for s in obs.get('snapshots', []):
+        if 'wire' not in s:
+            continue
+        w = s['wire']
+        if w is None:
+            if delivery and not has_surrogate(case):
+                v.append(f'{s["tp"]}: the snapshot handed to the push service cannot be converted (convert_snapshot returns '
+                         'None): nothing is delivered')
+            continue
+        if 'raised' in w:
+            v.append(f'{s["tp"]}: convert_snapshot raised {w["raised"]}')
+            continue
+        if closure:
+            keys = set(w['vars'])
+            for where, vid, name in w['refs']:
+                if vid not in keys:
+                    v.append(f'{s["tp"]} (message sent): {where}: reference {name!r} -> id {vid!r} has no entry in var_lookup')
+    return v
 
 
 def fix_text(s):
@@ -591,7 +676,7 @@ def run_case(case):
         except (TypeError, ValueError):
             return None
     pushed = d['pushed']
-    obs['snapshots'] = [dump_snap(s, obj_of_hash) for s in pushed]
+    obs['snapshots'] = [dict(dump_snap(s, obj_of_hash), wire=wire_of(s)) for s in pushed]
     obs['shared_tables'] = len({id(s.var_lookup) for s in pushed}) != len(pushed)
     obs['shared_frames'] = len({id(s.frames[0].variables) for s in pushed if s.frames}) != \
         len([s for s in pushed if s.frames])
@@ -1145,6 +1230,10 @@ def gen_watches(rng, specs, locs):
                            ('tuple([1, 2, 3])', 'tuple([4, 5, 6])'), ('[1, 2]', '[3, 4]'),
                            ('"hello " + "world"', '"hello " + "there"')])
         out += [a, a, b] if rng.random() < 0.7 else [name, a, a, b]
+    if rng.random() < 0.08:
+        # many new small tuples / lists created after the frame was collected
+        out.append(rng.choice(['[(i, str(i)) for i in range(40)]', '[(i, i * 1000) for i in range(30)]',
+                               '[[i, 1000 + i] for i in range(25)]', 'list(zip(range(1000, 1040), range(2000, 2040)))']))
     for _ in range(rng.choice([0, 0, 1, 1, 2, 3])):
         r = rng.random()
         name, j = rng.choice(locs) if locs else ('nope', None)
@@ -1418,6 +1507,26 @@ def judge_identity(case, obs, live, ai, s):
                 want = [(n, ref.render(t)[:lim['str']]) for n, _, t in ks][:len(got)]
                 if got != want:
                     v.append(f'watch {expr!r} -> id {k}: children {got[:4]} do not describe the value {want[:4]}')
+                else:
+                    # and below: what is recorded under a value the expression created must describe that value
+                    bad = []
+
+                    def below(entry, value, depth, path):
+                        kids = ref.kids(value)
+                        if kids is None or depth + 1 >= lim['depth'] or bad or depth > 3:
+                            return
+                        for c, (n, _, t) in zip(entry['children'], kids):
+                            ce = table.get(int(c[0])) if c[0] is not None else None
+                            if ce is None:
+                                continue
+                            if c[1] != n or ce['type'] != type(t).__name__ or ce['value'] != ref.render(t)[:lim['str']]:
+                                bad.append(f'{path}[{n}] is recorded as {c[1]!r}: {ce["type"]} {ce["value"][:30]!r}, the value '
+                                           f'there is {type(t).__name__} {ref.render(t)[:30]!r}')
+                                return
+                            below(ce, t, depth + 1, f'{path}[{n}]')
+                    below(e, val, 0, expr)
+                    if bad:
+                        v.append(f'watch {expr!r} -> id {k}: ' + bad[0])
     return v
 
 
